@@ -1,9 +1,11 @@
 import StepModel.ComplexMatch
 import StepModel.ComplexBuild
+import StepModel.ComplexSafeTop
 /-! Line-protocol driver for the complex-entity models (same request lines as harness/h_complex.cc where they overlap).
 Names are numbers (alphabetical rank of the entity name, assigned by the caller).
 
     tree C[ t ; t ]            -> T C[ ... ]        set the collect (t ::= n | (A t..) | (O t..) | (X t..))
+    wf                         -> W 0 | W 1         every head has the shape `C08_no_crash` assumes (`headWF`)
     mult n n ..                -> M k               set the entities that have more than one supertype
     q n n ..                   -> R 0 | R 1 | R crash:<site> | R fuel      Match.supports on the parts in this order
     eval n n ..                -> E 0 | E 1         Complex.evalB (plain meaning of the current collect)
@@ -141,6 +143,7 @@ def handle (s : DState) (line : String) : DState × String :=
     match parseCollect rest with
     | some c => ({ s with collect := c }, "T " ++ showCollect c)
     | none => (s, "bad-op")
+  | ["wf"] => (s, if s.collect.all headWF then "W 1" else "W 0")
   | "mult" :: rest =>
     match nats rest with
     | some ns => ({ s with mult := ns }, s!"M {ns.length}")
